@@ -12,8 +12,14 @@
 //! `Vec::new()`, `.collect()`, `None`, closures with untyped parameters - every class at every argument
 //! position; body template N: identifier collisions - the recursion named like an argument, a capture, a
 //! local, the loop variable, the closure's variable, `max` / `drop` / `Some` / `vec` / `format`, and user
-//! identifiers named like the macro's hidden helper fn and like its metavariables), compiles them against
-//! the REAL macro with cargo -
+//! identifiers named like the macro's hidden helper fn and like its metavariables; body template K: the DECLARED
+//! TYPE of every capture from classes - plain data, generic containers, slices / str, `impl Trait`, `dyn Trait`,
+//! references inside the type, tuples / arrays / fn pointers, Rc / Cell / RefCell, `Box<dyn FnMut>`, another
+//! recursive lambda - at every capture position for both kinds of capture; body template X: EXECUTION
+//! ENVIRONMENTS - a recursion of millions of levels on a caller thread that arranged a 1 GiB stack, calls from
+//! several threads at once, a closure moved to another thread, a lambda created and called inside the body of a
+//! lambda; these run in child processes of the generated binary, the hand-written version first), compiles them
+//! against the REAL macro with cargo -
 //! once with the flags of a release build and once with debug assertions and overflow checks on, because
 //! `cfg(debug_assertions)` inside a macro is decided in the invoking crate -, runs the produced binaries and
 //! compares, per shape and per argument tuple, the return values and the final state of every capture (and
@@ -324,6 +330,9 @@ struct ShapeOut {
     /// activations that left the body through an explicit `return`
     early_macro: u64,
     early_hand: u64,
+    /// bytes of stack between the probed activations (shapes of the environment `deep`), largest run
+    span_macro: u64,
+    span_hand: u64,
 }
 
 struct RunOut {
@@ -373,6 +382,8 @@ fn run_binary(bin: &Path, ids: &[usize]) -> RunOut {
                         calls_hand: v["calls_hand"].as_u64().unwrap_or(0),
                         early_macro: v["early_macro"].as_u64().unwrap_or(0),
                         early_hand: v["early_hand"].as_u64().unwrap_or(0),
+                        span_macro: v["span_macro"].as_u64().unwrap_or(0),
+                        span_hand: v["span_hand"].as_u64().unwrap_or(0),
                     },
                 );
                 begun = None;
@@ -457,14 +468,34 @@ fn shorten(s: &str) -> String {
     }
 }
 
+/// What the driver of an execution-environment shape does with the tuple.
+fn env_text(env: &str) -> String {
+    match env {
+        "deep" => format!(
+            "on a thread that was given {} MiB of stack: a call with the first argument capped at 64, then a call that recurses as many levels as the first argument says",
+            gen::BIG_STACK >> 20
+        ),
+        "threads_own" => format!("{} threads at the same time, each with its own captured data and closure: thread t calls with the first argument + 16 t, then one less", gen::THREADS),
+        "threads_shared" => format!("ONE closure called through `&` by {} threads at the same time: thread t calls with the first argument + 16 t, then one less", gen::THREADS),
+        "moved" => "a call with the first argument capped at 64 on the creating thread, then the closure is MOVED to another thread and called there with the tuple".to_string(),
+        "nested" => "every activation creates and calls another recursive lambda; a call with the first argument capped at 64, then with the tuple".to_string(),
+        other => other.to_string(),
+    }
+}
+
 /// First argument tuple on which the two versions differ.
 fn first_difference(sh: &Shape, out: &ShapeOut, grid: &[Tuple]) -> Option<(usize, String)> {
     if out.mac.len() != grid.len() || out.hand.len() != grid.len() {
         machinery(&format!("shape {} produced {} / {} results for {} tuples", sh.descriptor(), out.mac.len(), out.hand.len(), grid.len()));
     }
     for i in 0..grid.len() {
-        if out.hand[i] == "PANIC" {
-            machinery(&format!("the hand-written reference of {} panicked on {}", sh.descriptor(), gen::tuple_text(&grid[i], sh.grid_arity())));
+        if out.hand[i] == "PANIC" || out.hand[i].starts_with("DIED") {
+            machinery(&format!(
+                "the hand-written reference of {} did not get through on {}: {}",
+                sh.descriptor(),
+                gen::tuple_text(&grid[i], sh.tuple_arity()),
+                out.hand[i]
+            ));
         }
         if out.mac[i] != out.hand[i] {
             return Some((
@@ -477,6 +508,8 @@ fn first_difference(sh: &Shape, out: &ShapeOut, grid: &[Tuple]) -> Option<(usize
                         format!("{:?} (called twice with values of the parameter types built from the first component v: argument k gets `top(v + k)`, then `top(v + k + 7)`, see the driver in the sample / generated source)", grid[i])
                     } else if sh.body == 'T' {
                         format!("{:?} (the closure is created once and called four times; the data behind the arguments is built from the tuple, mutated after call 1, replaced by short-lived temporaries for call 3 and recreated before call 4)", grid[i])
+                    } else if sh.body == 'X' {
+                        format!("{} ({}; every version and tuple in a process of its own, the hand-written version first)", gen::tuple_text(&grid[i], sh.nargs), env_text(&sh.env))
                     } else {
                         format!("{} (called twice: with these, then with the first argument decreased by 1)", gen::tuple_text(&grid[i], sh.nargs))
                     },
@@ -509,6 +542,8 @@ fn tier_shapes(thorough: bool) -> Vec<(usize, Shape)> {
     // later families are appended, so that the ids of the earlier ones (recorded in replay histories) stay
     v.extend(gen::enumerate_expected(thorough));
     v.extend(gen::enumerate_named(thorough));
+    v.extend(gen::enumerate_captyped(thorough));
+    v.extend(gen::enumerate_env(thorough));
     v.into_iter().enumerate().collect()
 }
 /// Number of library crates the shapes of a build are spread over (shape id modulo this number): with the two
@@ -667,17 +702,17 @@ fn main() {
     let mut run = Run::new(&args, "lambda", "exploration");
     let thorough = args.tier == Tier::Thorough;
     let plan = tier_plan(thorough);
-    let bodies: Vec<char> = plan.iter().map(|(b, _)| *b).chain(['T', 'E', 'N']).collect();
+    let bodies: Vec<char> = plan.iter().map(|(b, _)| *b).chain(['T', 'E', 'N', 'K', 'X']).collect();
     let shapes: Vec<(usize, Shape)> = tier_shapes(thorough);
     let n_fixed: usize = plan.iter().map(|(_, a)| 31 * a.len() * 2 * 2).sum();
     let typed: Vec<&Shape> = shapes.iter().map(|(_, s)| s).filter(|s| s.body == 'T').collect();
     let expected: Vec<&Shape> = shapes.iter().map(|(_, s)| s).filter(|s| s.body == 'E').collect();
     let named: Vec<&Shape> = shapes.iter().map(|(_, s)| s).filter(|s| s.body == 'N').collect();
-    if shapes.len() - typed.len() - expected.len() - named.len() != n_fixed {
-        run.machinery_failure(&format!(
-            "enumerated {} shapes of the templates with the fixed argument types, expected {n_fixed}",
-            shapes.len() - typed.len() - expected.len() - named.len()
-        ));
+    let captyped: Vec<&Shape> = shapes.iter().map(|(_, s)| s).filter(|s| s.body == 'K').collect();
+    let envs: Vec<&Shape> = shapes.iter().map(|(_, s)| s).filter(|s| s.body == 'X').collect();
+    let n_later = typed.len() + expected.len() + named.len() + captyped.len() + envs.len();
+    if shapes.len() - n_later != n_fixed {
+        run.machinery_failure(&format!("enumerated {} shapes of the templates with the fixed argument types, expected {n_fixed}", shapes.len() - n_later));
     }
     let descriptors: BTreeSet<String> = shapes.iter().map(|(_, s)| s.descriptor()).collect();
     if descriptors.len() != shapes.len() {
@@ -793,6 +828,40 @@ fn main() {
     let naming_schemes: BTreeSet<&str> = named.iter().map(|s| s.naming.as_str()).collect();
     let hidden_in_source = std::fs::read_to_string(Path::new(CRATE_PATH).join("src/lib.rs")).map(|t| t.contains(gen::HIDDEN)).unwrap_or(false);
 
+    // non-vacuity of the capture-type family: every class occurs at every capture position (0..4) for its kind,
+    // in thorough at every position of every capture pattern
+    let captype_cells: BTreeSet<(usize, bool, &str)> = captyped.iter().flat_map(|s| (0..s.caps.len()).map(move |p| (p, s.caps[p], s.captypes[p].as_str()))).collect();
+    let captype_pattern_cells: BTreeSet<(Vec<bool>, usize, &str)> =
+        captyped.iter().flat_map(|s| (0..s.caps.len()).map(move |p| (s.caps.clone(), p, s.captypes[p].as_str()))).collect();
+    for kind in [false, true] {
+        for c in gen::cclasses(kind) {
+            for p in 0..4usize {
+                if !captype_cells.contains(&(p, kind, c.name)) {
+                    run.machinery_failure(&format!("capture-type family: class {} ({}) never occurs at capture position {p}", c.name, if kind { "&mut" } else { "&" }));
+                }
+            }
+            if thorough {
+                for caps in &patterns {
+                    for p in (0..caps.len()).filter(|&p| caps[p] == kind) {
+                        if !captype_pattern_cells.contains(&(caps.clone(), p, c.name)) {
+                            run.machinery_failure(&format!("capture-type family: class {} never occurs at position {p} of capture pattern {caps:?}", c.name));
+                        }
+                    }
+                }
+            }
+        }
+    }
+    let captype_patterns: BTreeSet<&Vec<bool>> = captyped.iter().map(|s| &s.caps).collect();
+    if captype_patterns.len() != 30 {
+        run.machinery_failure("capture-type family: not every capture pattern with a capture occurs");
+    }
+    // the execution-environment family: every environment occurs
+    for env in gen::ENVS {
+        if !envs.iter().any(|s| s.env == env) {
+            run.machinery_failure(&format!("execution-environment family: environment {env} never occurs"));
+        }
+    }
+
     let tier_name = args.tier.name();
 
     // ---- compile and run: one package per profile, both built at the same time ----
@@ -805,7 +874,7 @@ fn main() {
     run.cov("build_wall_s_max_over_builds", (outs.iter().map(|o| o.build_wall_s).fold(0.0, f64::max) * 10.0).round() / 10.0);
     run.cov("build_and_run_wall_s", (t0.elapsed().as_secs_f64() * 10.0).round() / 10.0);
 
-    let grids: Vec<Vec<Tuple>> = (0..=4).map(|n| gen::grid(thorough, n)).collect();
+    let grids: Vec<Vec<Tuple>> = (0..=gen::GRID_ENV).map(|n| gen::grid(thorough, n)).collect();
     let mut evaluations = 0u64;
     let mut distinct_outcomes: BTreeSet<u64> = BTreeSet::new();
     let mut calls_macro = 0u64;
@@ -822,6 +891,11 @@ fn main() {
     let mut typed_run = 0u64;
     let mut expected_run = 0u64;
     let mut named_run = 0u64;
+    let mut captyped_run = 0u64;
+    let mut envs_run = 0u64;
+    // stack that the hand-written version spans in the deep runs: (smallest, largest) over shapes and builds
+    let mut deep_span: Option<(u64, u64)> = None;
+    let mut deep_span_macro = 0u64;
     // the first failing case of each family: smallest (shape id, profile)
     let mut first_compile: Option<((usize, Profile), Violation)> = None;
     let mut first_behaviour: Option<((usize, Profile), Violation)> = None;
@@ -877,6 +951,24 @@ fn main() {
             typed_run += (sh.body == 'T') as u64;
             expected_run += (sh.body == 'E') as u64;
             named_run += (sh.body == 'N') as u64;
+            captyped_run += (sh.body == 'K') as u64;
+            envs_run += (sh.body == 'X') as u64;
+            if sh.env == "deep" {
+                // the deep recursion must be deep for the hand-written fn: well beyond any "big enough" fixed
+                // stack (64 .. 256 MiB), and well within the stack the caller arranged
+                let (lo, hi) = (300u64 << 20, (gen::BIG_STACK as u64 / 4) * 3);
+                if o.span_hand < lo || o.span_hand > hi {
+                    run.machinery_failure(&format!(
+                        "shape {} ({}): the hand-written fn spans {} bytes of stack at depth {}, wanted between {lo} and {hi} - adjust gen::DEEP",
+                        sh.descriptor(),
+                        profile.describe(),
+                        o.span_hand,
+                        gen::DEEP
+                    ));
+                }
+                deep_span = Some(deep_span.map_or((o.span_hand, o.span_hand), |(a, b)| (a.min(o.span_hand), b.max(o.span_hand))));
+                deep_span_macro = deep_span_macro.max(o.span_macro);
+            }
             calls_macro += o.calls_macro;
             calls_hand += o.calls_hand;
             early_by_profile[pi] += o.early_macro;
@@ -908,7 +1000,7 @@ fn main() {
                 ));
             }
             if let Some((i, msg)) = first_difference(sh, o, grid) {
-                fail(format!("behaviour:{}@args={}{}", sh.descriptor(), gen::tuple_text(&grid[i], sh.grid_arity()), profile.sig_suffix()), msg);
+                fail(format!("behaviour:{}@args={}{}", sh.descriptor(), gen::tuple_text(&grid[i], sh.tuple_arity()), profile.sig_suffix()), msg);
             }
         }
     }
@@ -954,7 +1046,7 @@ fn main() {
     run.cov("typed_argument_type_vectors", json!(typed_vectors.iter().collect::<Vec<_>>()));
     run.cov("typed_(capture_pattern,argument_count,position,class)_cells_covered", typed_cells.len() as u64);
     run.cov("typed_(capture_class,argument_count,class)_cells_covered_of_80", typed_capture_classes.len() as u64);
-    run.cov("argument_tuples_per_arity_1_to_4", json!(grids[1..].iter().map(|g| g.len()).collect::<Vec<_>>()));
+    run.cov("argument_tuples_per_arity_1_to_4", json!(grids[1..=4].iter().map(|g| g.len()).collect::<Vec<_>>()));
     run.cov("programs_with_expected_type_arguments", expected.len() as u64);
     run.cov("expected_type_classes", json!(classes.iter().map(|c| json!({"class": c.name, "parameter_type": c.ty, "literal_only": c.literal_only, "recursive_call_arguments": c.sites.iter().chain(c.loop_sites.iter()).collect::<Vec<_>>()})).collect::<Vec<_>>()));
     run.cov("expected_type_shift_counts_of_the_loop_sites", json!(gen::E_SHIFTS.to_vec()));
@@ -964,16 +1056,40 @@ fn main() {
     run.cov("identifier_collision_schemes", json!(naming_schemes.iter().collect::<Vec<_>>()));
     run.cov("identifier_collision_(capture_pattern,argument_count,scheme)_cells", namings.len() as u64);
     run.cov("hidden_helper_identifier", json!({"name": gen::HIDDEN, "present_in_the_macro_source": hidden_in_source}));
+    run.cov("programs_with_capture_type_classes", captyped.len() as u64);
+    run.cov(
+        "capture_type_vectors_per_pattern",
+        if thorough { json!("the number of classes of the kind (of the larger kind, in a mixed pattern)") } else { json!(gen::captype_vectors_per_pattern_quick()) },
+    );
+    let class_list = |kind: bool| -> Vec<Value> { gen::cclasses(kind).iter().map(|c| json!({"class": c.name, "group": c.group, "declared_type": format!("{}{}", if kind { "&mut " } else { "&" }, c.ty)})).collect() };
+    run.cov("capture_type_classes", json!({"shared": class_list(false), "mutable": class_list(true), "groups": gen::cclass_groups()}));
+    run.cov("capture_type_(position,kind,class)_cells_covered", json!({"covered": captype_cells.len(), "of": 4 * (gen::cclasses(false).len() + gen::cclasses(true).len())}));
+    run.cov("capture_type_(capture_pattern,position,class)_cells_covered", captype_pattern_cells.len() as u64);
+    run.cov("programs_with_execution_environments", json!(envs.iter().map(|s| s.descriptor()).collect::<Vec<_>>()));
+    run.cov(
+        "execution_environments",
+        json!({
+            "environments": gen::ENVS.iter().map(|e| json!({"env": e, "driver": env_text(e)})).collect::<Vec<_>>(),
+            "deep_recursion_levels": gen::DEEP,
+            "deep_caller_stack_bytes": gen::BIG_STACK,
+            "deep_stack_spanned_by_the_hand_written_fn_bytes_min_max": deep_span.map(|(a, b)| json!([a, b])),
+            "deep_stack_spanned_by_the_macro_version_bytes_max": deep_span_macro,
+            "driver_tuples": {"deep": grids[gen::GRID_DEEP].len(), "other": grids[gen::GRID_ENV].len()},
+            "isolation": "every (version, tuple) of these programs runs in a child process of its own, the hand-written version first; a child killed by a signal gives the result DIED(signal n), which differs from every result of the hand-written version",
+        }),
+    );
     run.cov("skipped_out_of_domain", json!({"capture_named_like_the_hidden_helper": "not generated: a block-level item shadows the enclosing function's variables, so the helper's name cannot be the name of a captured variable for any macro that declares its helper next to the closure"}));
     run.cov("exhaustive", true);
     run.cov("crate_under_test", CRATE_PATH);
     run.cov(
         "rule",
-        "every shape = (capture sequence of length 0..=4 over {&,&mut}, 1..=4 arguments, return type i64/none, recursive calls plain/trailing comma, body template; the templates and the argument counts each is emitted with are listed in body_templates_with_argument_counts: A two calls ordered by a branch, B early returns, C calls in a loop / match arm and a nested call, D argument expressions with effects — a recursive call nested in an argument of a recursive call (as a sub-expression, or as a statement of a block argument when nothing is returned), block arguments that mutate every mutable capture before yielding their value, and an argument computed from a value popped off a mutable Vec capture; D occurs in both tiers for every capture pattern, both return forms and both call syntaxes; these have the argument types i64, i64, u32, bool) plus the typed-argument family T: for every capture pattern and argument count, type vectors over the classes I by-value i64, B bool, S shared slice &[i64], M &mut Vec<i64> passed as an ARGUMENT (re-borrowed in the recursive calls, implicitly and as &mut *a), O owned Vec<i64> / String (cloned for the first recursive call, moved into the last) such that every class occurs at every argument position (five rotation vectors; further vectors — all arguments of one class, one non-integer class among integers — all in thorough, one per cell in quick), body = early return when the first argument is exhausted, then two recursive calls; the T driver creates the closure once and calls it four times, MUTATING the data behind the arguments after call 1, passing short-lived temporaries in call 3 and dropping and recreating the data before call 4, exactly as it drives the hand-written fn; plus the expected-type family E: the arguments of the recursive calls are expressions whose type NOTHING BUT THE PARAMETER fixes, so the macro version only agrees with the fn if the macro hands the parameter type down to the argument expression as a direct call does — parameter classes u8 u16 u32 u64 usize u128 i8 i16 i32 i64 isize i128 with unsuffixed-literal expressions (the largest value of the type, `!0 >> 1`, the smallest value, 2^32 written as a sum of two literals above i32::MAX, and in a loop over the shift counts expected_type_shift_counts_of_the_loop_sites `1 << (k % BITS)` and `!0 >> (k % BITS)` with a u32 variable k: values beyond the i32 / u32 range for every type that holds them), f32 / f64 with float literals (one that rounds differently to f32 directly and via f64, sums that differ between f32 and f64 arithmetic, the extreme finite values), literals nested in a tuple / Some / slice / vec!, and expressions that need the expected type to infer at all: Default::default(), .into(), .parse().unwrap(), Vec::new() / vec![], .collect(), .sum() / .product() / .max(), a String built by .into() / .collect(), None, closures with untyped parameters passed as fn(i64) -> i64 and as &dyn Fn(i64) -> i64 (all listed in expected_type_classes); for every capture pattern and argument count class vectors by rotation so that every class occurs at every argument position of every argument count (two rotations per cell with complementary (return type, call syntax) in quick, all in thorough); body = three levels of activations (a depth counter next to the shape modules, the same in both versions), the driver's activation makes 2 calls per shift count and 3 plain calls, each of those one more; the driver passes typed values built from the first tuple component; plus the identifier-collision family N (fixed argument types; body = early return, `max(..)` imported by `use std::cmp::max`, `Some(..)`, `drop(..)`, two recursive calls in a `for` loop and one after it, with a local and the loop variable in scope at the calls): the recursion is named like an argument (every position), like a captured variable (every position of every capture pattern), like the body's local, like the loop variable, like the variable the closure is bound to, like `max` / `drop` / `Some` / `vec` / `format`; an argument (every position), the local, the loop variable, the closure's variable or the recursion itself carries the name of the macro's hidden helper fn (hidden_helper_identifier); or every identifier is the name of one of the macro's metavariables (scheme meta) — the hand-written fn is called `hand` and takes the same names, so it compiles in every scheme (quick: per capture pattern and argument count one rec:arg, one rec:cap, one arg:hidden and one position-independent scheme, rotating; thorough: all). Every shape is emitted as a rec_lambda! invocation and as a hand-written recursive fn with the same body, compiled against the real macro (as several library crates linked into one program) twice — without and with debug assertions / overflow checks — and run on every argument tuple of a fixed grid; an evaluation = one (shape, build, tuple) comparison of (results of all calls, every capture, every &mut argument's data). A shape is non-trivial when the reference's results differ between at least two tuples of the grid (measured, counted once per shape); shapes with neither return value nor mutable capture nor &mut argument show only termination and are excluded",
+        "every shape = (capture sequence of length 0..=4 over {&,&mut}, 1..=4 arguments, return type i64/none, recursive calls plain/trailing comma, body template; the templates and the argument counts each is emitted with are listed in body_templates_with_argument_counts: A two calls ordered by a branch, B early returns, C calls in a loop / match arm and a nested call, D argument expressions with effects — a recursive call nested in an argument of a recursive call (as a sub-expression, or as a statement of a block argument when nothing is returned), block arguments that mutate every mutable capture before yielding their value, and an argument computed from a value popped off a mutable Vec capture; D occurs in both tiers for every capture pattern, both return forms and both call syntaxes; these have the argument types i64, i64, u32, bool) plus the typed-argument family T: for every capture pattern and argument count, type vectors over the classes I by-value i64, B bool, S shared slice &[i64], M &mut Vec<i64> passed as an ARGUMENT (re-borrowed in the recursive calls, implicitly and as &mut *a), O owned Vec<i64> / String (cloned for the first recursive call, moved into the last) such that every class occurs at every argument position (five rotation vectors; further vectors — all arguments of one class, one non-integer class among integers — all in thorough, one per cell in quick), body = early return when the first argument is exhausted, then two recursive calls; the T driver creates the closure once and calls it four times, MUTATING the data behind the arguments after call 1, passing short-lived temporaries in call 3 and dropping and recreating the data before call 4, exactly as it drives the hand-written fn; plus the expected-type family E: the arguments of the recursive calls are expressions whose type NOTHING BUT THE PARAMETER fixes, so the macro version only agrees with the fn if the macro hands the parameter type down to the argument expression as a direct call does — parameter classes u8 u16 u32 u64 usize u128 i8 i16 i32 i64 isize i128 with unsuffixed-literal expressions (the largest value of the type, `!0 >> 1`, the smallest value, 2^32 written as a sum of two literals above i32::MAX, and in a loop over the shift counts expected_type_shift_counts_of_the_loop_sites `1 << (k % BITS)` and `!0 >> (k % BITS)` with a u32 variable k: values beyond the i32 / u32 range for every type that holds them), f32 / f64 with float literals (one that rounds differently to f32 directly and via f64, sums that differ between f32 and f64 arithmetic, the extreme finite values), literals nested in a tuple / Some / slice / vec!, and expressions that need the expected type to infer at all: Default::default(), .into(), .parse().unwrap(), Vec::new() / vec![], .collect(), .sum() / .product() / .max(), a String built by .into() / .collect(), None, closures with untyped parameters passed as fn(i64) -> i64 and as &dyn Fn(i64) -> i64 (all listed in expected_type_classes); for every capture pattern and argument count class vectors by rotation so that every class occurs at every argument position of every argument count (two rotations per cell with complementary (return type, call syntax) in quick, all in thorough); body = three levels of activations (a depth counter next to the shape modules, the same in both versions), the driver's activation makes 2 calls per shift count and 3 plain calls, each of those one more; the driver passes typed values built from the first tuple component; plus the identifier-collision family N (fixed argument types; body = early return, `max(..)` imported by `use std::cmp::max`, `Some(..)`, `drop(..)`, two recursive calls in a `for` loop and one after it, with a local and the loop variable in scope at the calls): the recursion is named like an argument (every position), like a captured variable (every position of every capture pattern), like the body's local, like the loop variable, like the variable the closure is bound to, like `max` / `drop` / `Some` / `vec` / `format`; an argument (every position), the local, the loop variable, the closure's variable or the recursion itself carries the name of the macro's hidden helper fn (hidden_helper_identifier); or every identifier is the name of one of the macro's metavariables (scheme meta) — the hand-written fn is called `hand` and takes the same names, so it compiles in every scheme (quick: per capture pattern and argument count one rec:arg, one rec:cap, one arg:hidden and one position-independent scheme, rotating; thorough: all); plus the capture-type family K (body of A, fixed argument types): the DECLARED TYPE of every capture comes from the classes listed in capture_type_classes — for `&` captures plain data (i64, String), tuple / array / fn pointer, generic containers (Vec<Vec<i64>>, BTreeMap<i64, Vec<i64>> with a comma inside the type, Option<Box<i64>>), unsized types ([i64] and str, the captured variable being the owner or already a reference), `impl Trait` (impl Fn(i64) -> i64 and impl Fn(usize, usize) -> u64 over local closures that borrow local data — the only way to capture a closure without dyn —, impl Display, impl AsRef<[i64]>), `dyn Trait` (dyn Fn over a closure and over a Box<dyn Fn>, dyn Debug), references / lifetimes inside the type (Vec<&str>, [&'static str], Option<&i64>, (&str, &[i64])), types that are not Send / Sync (Rc<Vec<i64>>, Cell<i64> and RefCell<Vec<i64>> — MUTATED through the shared capture), and another recursive lambda captured as impl Fn; for `&mut` captures Vec / i64 / String / tuple / array / fn pointer / BTreeMap / [i64] / str, impl FnMut(i64, i64) (a local closure that logs into a local Vec), impl Iterator<Item = i64>, impl fmt::Write, dyn FnMut(i64), dyn Iterator<Item = i64>, Box<dyn FnMut(i64) -> i64> (owning its state), Vec<&str>, Option<&str>, Rc (make_mut), RefCell (get_mut), and another recursive lambda with a mutable capture of its own captured as impl FnMut; the body reads every shared capture and changes every mutable one in the way of its class, the hand-written fn takes the same declared types as parameters, the driver renders what each capture holds after the last call (the closures' logs, the iterators' next item, the boxed closure's state); for every capture pattern with at least one capture, class vectors (quick: capture_type_vectors_per_pattern per pattern, every position taking the classes of its kind round-robin so that every class occurs at every capture position 0..3 for its kind; thorough: every class at every position of every capture pattern), argument count / return type / call syntax rotating; plus the execution-environment family X (default capture types, fixed argument types, body = a PATH: one recursive call per activation, depth = the first argument; Vec captures log near the leaves and every 65536 levels): the programs listed in programs_with_execution_environments, the same in both tiers — `deep`: the driver runs on a thread it gave deep_caller_stack_bytes of stack and recurses deep_recursion_levels levels (the body keeps a 16-word buffer across the recursive call; the hand-written fn measurably spans deep_stack_spanned_by_the_hand_written_fn_bytes_min_max bytes of stack, checked to lie between 300 MiB and three quarters of the caller's stack) after a shallow call of the same closure; `threads_own`: four threads released by a barrier, each with its own captured data and closure; `threads_shared`: one closure with shared captures only, called through `&` by four threads at the same time; `moved`: the closure is called, then moved to another thread and called there; `nested`: every activation of the body creates another recursive lambda over a local of the activation (mutable) and the outer lambda's shared captures, calls it and folds its result and log into its own; in the X programs the hand-written side is the closure `|arguments| hand(arguments, &captures…)` written out, driven by the same text; every (version, driver tuple) of an X program runs in a child process of its own that the generated binary starts from itself, the hand-written version first, so that a version that overflows its stack or aborts yields the result DIED(signal n) instead of taking the run down. Every shape is emitted as a rec_lambda! invocation and as a hand-written recursive fn with the same body, compiled against the real macro (as several library crates linked into one program) twice — without and with debug assertions / overflow checks — and run on every argument tuple of a fixed grid; an evaluation = one (shape, build, tuple) comparison of (results of all calls, every capture, every &mut argument's data). A shape is non-trivial when the reference's results differ between at least two tuples of the grid (measured, counted once per shape); shapes with neither return value nor mutable capture nor &mut argument show only termination and are excluded",
     );
     run.assume("a shape's compile verdict is the verdict of cargo/rustc of the installed tool chain on the generated program; the generated packages are built with opt-level 0, once with debug-assertions = false / overflow-checks = false and once with both true");
     run.assume("identifier collisions: a CAPTURED variable named like the macro's hidden helper fn is outside the family (skipped_out_of_domain): the helper is an item of the block that also holds the closure, and items shadow outer variables regardless of macro hygiene; locals, arguments, the recursion name and the closure's variable with that name are inside it");
-    run.assume("all shapes of a build run one after the other on the main thread of ONE process, so state that a macro keeps per thread between invocations accumulates over the whole run (early_returns_macro_version_per_process says how many activations ended in an explicit `return`); a violation that only shows after such a history is replayed with its history");
+    run.assume("capture types: what is demanded of a declared capture type is that the hand-written fn with a parameter of that type compiles and runs — `impl Trait` is allowed in parameter position, so it is in the family; a capture declared `&&T` is not generated (the `&` of the macro pattern does not match the single token `&&`; a user has to write `& &T`)");
+    run.assume("execution environments: the macro version may be used wherever the closure `|arguments| hand(arguments, &captures…)` written out may be — shared between threads when it only has shared captures of Sync data, sent to another thread when the captured data is Send / Sync, run on whatever stack the calling thread has; the deep programs need about 0.4 GiB of stack memory per running child (two at a time) and the kernel must grant a 1 GiB stack mapping; a hand-written version that does not get through is a machinery failure, never a verdict");
+    run.assume("all shapes of a build except the execution-environment programs run one after the other on the main thread of ONE process, so state that a macro keeps per thread between invocations accumulates over the whole run (early_returns_macro_version_per_process says how many activations ended in an explicit `return`); a violation that only shows after such a history is replayed with its history");
 
     // non-vacuity
     if !any_failure {
@@ -997,6 +1113,9 @@ fn main() {
         if expected_run != (expected.len() * PROFILES.len()) as u64 || named_run != (named.len() * PROFILES.len()) as u64 {
             run.machinery_failure("the expected-type family or the identifier-collision family was not run completely");
         }
+        if captyped_run != (captyped.len() * PROFILES.len()) as u64 || envs_run != (envs.len() * PROFILES.len()) as u64 || deep_span.is_none() {
+            run.machinery_failure("the capture-type family or the execution-environment family was not run completely");
+        }
     }
 
     // samples: macro invocations written out, with one observed result each (the last one has typed arguments)
@@ -1007,6 +1126,8 @@ fn main() {
         n_fixed + (args.seed as usize * 31 + typed.len() - 2) % typed.len(),
         n_fixed + typed.len() + (args.seed as usize * 37 + expected.len() / 2 + 1) % expected.len(),
         n_fixed + typed.len() + expected.len() + (args.seed as usize * 41 + named.len() / 3 + 1) % named.len(),
+        n_fixed + typed.len() + expected.len() + named.len() + (args.seed as usize * 43 + captyped.len() / 2 + 1) % captyped.len(),
+        n_fixed + typed.len() + expected.len() + named.len() + captyped.len() + (args.seed as usize * 47 + 2) % envs.len(),
     ];
     for &i in &picks {
         // of the later families, a shape that shows more than termination
